@@ -406,9 +406,9 @@ void check_unit(vh::Case &c, const char *variant, NameFn fn, const std::string &
 void validator_case(vh::Case &c, bool noregex)
 {
   vh::Reader &rd = c.rd;
+  unsigned lay   = rd.u8();
   GenStr n       = gen_name(rd);
   GenStr u       = gen_unit(rd);
-  unsigned lay   = rd.u8();
   unsigned ln = lay % kLayouts, lu = (lay / kLayouts) % kLayouts;
   c.note("name[" + n.cls + "," + std::to_string(n.s.size()) + "," + kLayoutName[ln] + "]=" + brief(n.s) +
          "\nunit[" + u.cls + "," + std::to_string(u.s.size()) + "," + kLayoutName[lu] + "]=" + brief(u.s) + "\n");
